@@ -2,70 +2,9 @@
 // over a family of concrete C++ types.  For every type the driver derives the descriptor and
 // prints values as trees of byte tuples; it performs no comparison.
 //   Ser <type-index> <seed>
-#include "common/vlog.h"
 #include <igris/serialize/stdtypes.h>
-#include <igris/serialize/serialize_archive.h>
-#include <map>
-#include <tuple>
-#include <string>
-#include <vector>
-#include <random>
-using namespace vlog;
-
-// ---- user types -----------------------------------------------------------------------
-struct PtA { int32_t x; uint8_t tag; double w;                       // framework A: reflect
-    template <class R> void reflect(R &r) { r & x; r & tag; r & w; } };
-struct NestA { std::string name; std::vector<int16_t> vals; PtA p;
-    template <class R> void reflect(R &r) { r & name; r & vals; r & p; } };
-struct PtB { int32_t x = 0; uint8_t tag = 0; double w = 0;             // framework B: serialize_reflect
-    template <class Ar> void serialize_reflect(Ar &a) { a & x; a & tag; a & w; }
-    template <class Ar> void serialize_reflect(Ar &a) const { a & x; a & tag; a & w; } };
-struct NestB { std::vector<int16_t> vals; PtB p; uint16_t n = 0;
-    template <class Ar> void serialize_reflect(Ar &a) { a & vals; a & p; a & n; }
-    template <class Ar> void serialize_reflect(Ar &a) const { a & vals; a & p; a & n; } };
-
-// ---- descriptor / value printing / generation -----------------------------------------------
-static std::mt19937 rng;
-static unsigned rnd(unsigned n) { return n ? rng() % n : 0; }
-static size_t rlen() { static const size_t L[] = {0, 0, 1, 1, 2, 3, 5, 17}; return L[rnd(8)]; }
-static std::string bytes_json(const void *p, size_t n) { std::string s = "["; const unsigned char *u = (const unsigned char *)p; for (size_t i = 0; i < n; ++i) { if (i) s += ","; s += std::to_string((unsigned)u[i]); } return s + "]"; }
-
-template <class T, class = void> struct TI;
-template <class T> struct TI<T, std::enable_if_t<std::is_arithmetic_v<T>>> {
-    static std::string desc() { return "{\"k\":\"scalar\",\"w\":" + std::to_string(sizeof(T)) + "}"; }
-    static std::string json(const T &v) { return bytes_json(&v, sizeof(T)); }
-    static T gen() { unsigned char b[sizeof(T)]; int mode = rnd(4); for (auto &x : b) x = mode == 0 ? 0 : mode == 1 ? 255 : (unsigned char)rnd(256);
-        if (std::is_floating_point_v<T> && mode >= 2) { T f = (T)((int)rnd(2000) - 1000) / 8; return f; } T v; memcpy(&v, b, sizeof(T)); return v; } };
-template <> struct TI<std::string> {
-    static std::string desc() { return "{\"k\":\"str\"}"; }
-    static std::string json(const std::string &v) { return bytes_json(v.data(), v.size()); }
-    static std::string gen() { size_t n = rnd(12) == 0 ? 255 + rnd(3) : rlen(); std::string s(n, 0); for (auto &c : s) c = (char)(rnd(4) == 0 ? 0 : rnd(256)); return s; } };
-template <class T> struct TI<std::vector<T>> {
-    static std::string desc() { return "{\"k\":\"vec\",\"t\":" + TI<T>::desc() + "}"; }
-    static std::string json(const std::vector<T> &v) { std::string s = "["; for (size_t i = 0; i < v.size(); ++i) { if (i) s += ","; s += TI<T>::json(v[i]); } return s + "]"; }
-    static std::vector<T> gen() { std::vector<T> v; size_t n = (sizeof(T) <= 2 && rnd(15) == 0) ? 255 + rnd(3) : rlen(); for (size_t i = 0; i < n; ++i) v.push_back(TI<T>::gen()); return v; } };
-template <class A, class B> struct TI<std::pair<A, B>> {
-    static std::string desc() { return "{\"k\":\"pair\",\"a\":" + TI<A>::desc() + ",\"b\":" + TI<B>::desc() + "}"; }
-    static std::string json(const std::pair<A, B> &v) { return "[" + TI<A>::json(v.first) + "," + TI<B>::json(v.second) + "]"; }
-    static std::pair<A, B> gen() { return {TI<A>::gen(), TI<B>::gen()}; } };
-template <class... Ts> struct TI<std::tuple<Ts...>> {
-    static std::string desc() { std::string s = "{\"k\":\"tuple\",\"ts\":["; bool f = true; ((s += (f ? "" : ","), s += TI<Ts>::desc(), f = false), ...); return s + "]}"; }
-    static std::string json(const std::tuple<Ts...> &v) { std::string s = "["; bool f = true; std::apply([&](const Ts &...x) { ((s += (f ? "" : ","), s += TI<Ts>::json(x), f = false), ...); }, v); return s + "]"; }
-    static std::tuple<Ts...> gen() { return std::tuple<Ts...>{TI<Ts>::gen()...}; } };
-template <class K, class V> struct TI<std::map<K, V>> {
-    static std::string desc() { return "{\"k\":\"map\",\"a\":" + TI<K>::desc() + ",\"b\":" + TI<V>::desc() + "}"; }
-    static std::string json(const std::map<K, V> &v) { std::string s = "["; bool f = true; for (auto &kv : v) { if (!f) s += ","; f = false; s += "[" + TI<K>::json(kv.first) + "," + TI<V>::json(kv.second) + "]"; } return s + "]"; }
-    static std::map<K, V> gen() { std::map<K, V> m; size_t n = rlen(); for (size_t i = 0; i < n; ++i) m.insert({TI<K>::gen(), TI<V>::gen()}); return m; } };
-#define STRUCT3(S, T1, f1, T2, f2, T3, f3) template <> struct TI<S> { \
-    static std::string desc() { return "{\"k\":\"struct\",\"ts\":[" + TI<T1>::desc() + "," + TI<T2>::desc() + "," + TI<T3>::desc() + "]}"; } \
-    static std::string json(const S &v) { return "[" + TI<T1>::json(v.f1) + "," + TI<T2>::json(v.f2) + "," + TI<T3>::json(v.f3) + "]"; } \
-    static S gen() { S s; s.f1 = TI<T1>::gen(); s.f2 = TI<T2>::gen(); s.f3 = TI<T3>::gen(); return s; } };
-STRUCT3(PtA, int32_t, x, uint8_t, tag, double, w)
-STRUCT3(NestA, std::string, name, std::vector<int16_t>, vals, PtA, p)
-STRUCT3(PtB, int32_t, x, uint8_t, tag, double, w)
-STRUCT3(NestB, std::vector<int16_t>, vals, PtB, p, uint16_t, n)
-
-// ---- the two frameworks --------------------------------------------------------------------
+#include "ser_common.h"
+std::mt19937 rng;
 struct FwA {
     static const char *name() { return "A"; }
     template <class T> static std::string ser(const T &v) { return igris::serialize(v); }
@@ -74,53 +13,22 @@ struct FwA {
     static const bool bounded = false;
     template <class T> static void trunc(const char *, size_t) {}
 };
-struct FwB {
-    static const char *name() { return "B"; }
-    template <class T> static std::string ser(const T &v) { return igris::serialize(v); }      // serialize_archive.h overload (binary_protocol)
-    template <class T> static std::pair<T, long> des(const char *p, size_t n) { igris::deserialize_buffer_storage st(igris::buffer((char *)p, n)); int before = st.avail(); T r = igris::deserialize<T>(st); return {r, (long)(before - st.avail())}; }
-    template <class T> static std::tuple<T, T, long> des2(const char *p, size_t n) { igris::deserialize_buffer_storage st(igris::buffer((char *)p, n)); int before = st.avail(); T a = igris::deserialize<T>(st); T b = igris::deserialize<T>(st); return {a, b, (long)(before - st.avail())}; }
-    static const bool bounded = true;
-    // decoding every truncation of the bytes through the bounded storage reader: must stay inside the block (ASan)
-    template <class T> static void trunc(const char *p, size_t n) { for (size_t k = 0; k < n; ++k) { char *c = (char *)malloc(k ? k : 1); memcpy(c, p, k); igris::deserialize_buffer_storage st(igris::buffer(c, k)); T r = igris::deserialize<T>(st); (void)r; free(c); } }
-};
-
-template <class Fw, class T> static void one(int idx) {
-    T v1 = TI<T>::gen(), v2 = TI<T>::gen();
-    std::string b1 = Fw::template ser<T>(v1), b2 = Fw::template ser<T>(v2);
-    // decode from exactly sized heap copies
-    char *c1 = (char *)malloc(b1.size() ? b1.size() : 1); memcpy(c1, b1.data(), b1.size());
-    auto d1 = Fw::template des<T>(c1, b1.size());
-    std::string cc = b1 + b2; char *c2 = (char *)malloc(cc.size() ? cc.size() : 1); memcpy(c2, cc.data(), cc.size());
-    auto d2 = Fw::template des2<T>(c2, cc.size());
-    size_t ntr = 0; if (Fw::bounded && b1.size() <= 300) { Fw::template trunc<T>(b1.data(), b1.size()); ntr = b1.size(); }
-    Ev e("Ser"); e.str("fw", Fw::name()).i("idx", idx).raw("type", TI<T>::desc()).raw("val", TI<T>::json(v1)).raw("val2", TI<T>::json(v2))
-        .bytes("bytes", b1.data(), b1.size()).raw("dec", TI<T>::json(d1.first)).i("consumed", d1.second)
-        .raw("cdec1", TI<T>::json(std::get<0>(d2))).raw("cdec2", TI<T>::json(std::get<1>(d2))).i("cconsumed", std::get<2>(d2)).i("clen", (long)cc.size()).i("truncations", (long)ntr);
-    e.end(); free(c1); free(c2);
-}
-
-typedef std::vector<std::string> VS;
 #define TYPES_A(X) X(int8_t) X(int16_t) X(int32_t) X(int64_t) X(uint8_t) X(uint16_t) X(uint32_t) X(uint64_t) X(float) X(double) X(std::string) \
     X(std::vector<int32_t>) X(std::vector<uint8_t>) X(std::vector<double>) X(VS) X(std::vector<std::vector<uint8_t>>) X(std::vector<std::vector<std::string>>) \
     X(std::pair<int32_t COMMA std::string>) X(std::pair<std::string COMMA std::vector<int16_t>>) X(std::tuple<int8_t COMMA std::string COMMA double>) X(std::tuple<std::vector<uint16_t> COMMA std::pair<uint8_t COMMA uint8_t>>) \
     X(std::map<std::string COMMA int32_t>) X(std::map<int32_t COMMA VS>) X(std::map<uint8_t COMMA std::map<uint8_t COMMA std::string>>) X(PtA) X(NestA) X(std::vector<PtA>) X(std::map<std::string COMMA NestA>)
-#define TYPES_B(X) X(int8_t) X(int16_t) X(int32_t) X(int64_t) X(uint8_t) X(uint16_t) X(uint32_t) X(uint64_t) X(float) X(double) X(char) \
-    X(std::vector<int32_t>) X(std::vector<uint8_t>) X(std::vector<double>) X(std::vector<std::vector<uint8_t>>) X(std::vector<std::vector<std::vector<int16_t>>>) X(PtB) X(NestB) X(std::vector<PtB>) X(std::vector<NestB>)
-#define COMMA ,
+void ser_b(int idx);
+static void ser_a(int idx) {
+    int k = 0;
+#define X(T) if (k++ == idx) { one<FwA, T>(idx); return; }
+    TYPES_A(X)
+#undef X
+    Ev e("NoType"); e.i("idx", idx); e.end();
+}
 int main(int argc, char **argv) {
     return run(argc, argv, [&](const std::vector<std::string> &t) {
         if (t[0] == "R") { Ev e("Reset"); e.end(); return; }
-        const std::string fw = t[1]; int idx = num(t[2]); rng.seed((unsigned)num(t[3]));
-        int k = 0;
-        if (fw == "A") {
-#define X(T) if (k++ == idx) { one<FwA, T>(idx); return; }
-            TYPES_A(X)
-#undef X
-        } else {
-#define X(T) if (k++ == idx) { one<FwB, T>(idx); return; }
-            TYPES_B(X)
-#undef X
-        }
-        Ev e("NoType"); e.i("idx", idx); e.end();
+        rng.seed((unsigned)num(t[3]));
+        if (t[1] == "A") ser_a(num(t[2])); else ser_b(num(t[2]));
     });
 }
